@@ -152,7 +152,9 @@ def run_check(prop, tier, seed):
                 # the harness itself tripped over what the implementation returned.  If there is independent evidence
                 # that the tree changed behaviour (a broken obligation, a disagreement, an oracle failure) this is part
                 # of that breakage and is reported as a broken correspondence; otherwise it is a harness bug (exit 2)
-                if not (ctx.disagreements or ctx.failures or any(not o[1] for o in obligations)):
+                # (a blessed tree = byte-identical to the one the harness was validated on: there the trip is the harness's own
+                # fault; on any other tree the correspondence could not be established, which is what gets reported)
+                if not (ctx.disagreements or ctx.failures or any(not o[1] for o in obligations)) and C.tree_is_blessed():
                     raise
                 obligations.append(('tie:harness-could-not-interpret-the-implementation-output', False,
                                     traceback.format_exc()[-1500:]))
